@@ -1079,3 +1079,29 @@ V("c01-silent-config-attribute", "C01", "silent", LG, "        self.W = W.copy()
 V("c04-silent-config-attribute", "C04", "silent", LG, "        self.W = W.copy()\n        self.p = len(W)\n", "        self.W = W.copy()\n        self.p = len(W)\n        self.verbose = False\n",
   more=[(LG, "        # Must copy as they can be changed by interventions, but we\n", "        if self.verbose:\n            print(\"sampling from\", self.p, \"variables\")\n        # Must copy as they can be changed by interventions, but we\n")],
   what="a setting stored by the constructor and only read by sample")
+
+# ------------------------------------------------------------------------------- equivalent spellings, batch 5
+# _bootstrap / DRFNet.sample
+V("sp5-c19-boot-take", "C19", "silent", SE, "    sample = data[idx]\n    return sample\n", "    return data[idx]\n", what="returned directly")
+V("sp5-c19-boot-n", "C19", "silent", SE, "    n = len(data) if n is None else n\n", "    if n is None:\n        n = len(data)\n", what="if statement for the default size")
+V("sp5-c19-boot-kw", "C19", "silent", SE, "    idx = rng.choice(len(data), n, replace=True)\n", "    idx = rng.choice(len(data), size=n, replace=True)\n", what="size keyword")
+V("sp5-c19-boot-integers", "C19", "silent", SE, "    idx = rng.choice(len(data), n, replace=True)\n", "    idx = rng.integers(0, len(data), size=n)\n", what="uniform integers are a bootstrap with replacement", accept_inconclusive=False)
+V("sp5-c19-reader-local", "C19", "silent", SE, "                    output = forest.predict(n=1, functional=\"sample\", newdata=new_data)\n                    sample[:, i] = output.sample[:, 0, 0]\n", "                    drawn = forest.predict(n=1, functional=\"sample\", newdata=new_data).sample\n                    sample[:, i] = drawn[:, 0, 0]\n", what="attribute taken first")
+V("sp5-c19-zeros-nofloat", "C19", "silent", SE, "            sample = np.zeros((n[k], self.p), dtype=float)\n", "            sample = np.zeros((n[k], self.p))\n", what="default dtype")
+V("sp5-c19-isinstance-int", "C19", "silent", SE, "        elif type(n) == int:\n            n = [n] * self.e\n", "        elif isinstance(n, int):\n            n = [n] * self.e\n", what="isinstance int")
+# generators
+V("sp5-c11-weights-shape", "C11", "silent", GE, "    weights = rng.uniform(w_min, w_max, size=A.shape)\n    W = A * weights\n\n    # Permute", "    weights = rng.uniform(w_min, w_max, size=(p, p))\n    W = A * weights\n\n    # Permute", what="explicit shape")
+V("sp5-c11-mask-first", "C11", "silent", GE, "    weights = rng.uniform(w_min, w_max, size=A.shape)\n    W = A * weights\n\n    # Permute", "    weights = rng.uniform(w_min, w_max, size=A.shape)\n    W = weights * A\n\n    # Permute", what="commuted product")
+V("sp5-c11-strict-lt", "C11", "silent", GE, "    A = (A <= prob).astype(float)\n", "    A = (A < prob).astype(float)\n", what="strict comparison of a continuous draw")
+V("sp5-c12-list-range", "C12", "silent", GE, "        remaining_targets = set(range(p))\n", "        remaining_targets = set(np.arange(p))\n", what="arange")
+V("sp5-c12-difference-update", "C12", "silent", GE, "            remaining_targets -= set(intervention)\n", "            remaining_targets.difference_update(intervention)\n", what="difference_update")
+V("sp5-c12-sizes-repeat", "C12", "silent", GE, "        sizes = [size] * K\n", "        sizes = np.repeat(size, K)\n", what="np.repeat")
+# utils edges
+V("sp5-c18-remove-vectorised-ok", "C18", "silent", UT, "    pruned = A.copy()\n    for (fro, to) in rng.choice(edges, no_edges, replace=False):\n        pruned[fro, to] = 0\n    return pruned\n", "    pruned = A.copy()\n    for pair in rng.choice(edges, no_edges, replace=False):\n        pruned[pair[0], pair[1]] = 0\n    return pruned\n", what="pair indexed instead of unpacked")
+V("sp5-c18-guard-gt", "C18", "silent", UT, "    if len(edges) < no_edges:\n        raise ValueError(\"There are not enough edges to remove.\")\n", "    if no_edges > len(edges):\n        raise ValueError(\"There are not enough edges to remove.\")\n", what="operands swapped")
+# noise
+V("sp5-c20-laplace-kw", "C20", "silent", NO, "return lambda n: np.random.laplace(mean, scale, n)", "return lambda n: np.random.laplace(loc=mean, scale=scale, size=n)", what="keywords")
+V("sp5-c20-normal-sd-var", "C20", "silent", NO, "def normal(mean=0, var=1):\n    return lambda n: np.random.normal(mean, var**0.5, n)", "def normal(mean=0, var=1):\n    sd = var ** 0.5\n    return lambda n: np.random.normal(mean, sd, n)", what="standard deviation computed once")
+# normal distribution
+V("sp5-c06-mse-local", "C06", "silent", ND, "        cov = self.covariance\n", "        cov = np.asarray(self.covariance)\n", what="asarray view")
+V("sp5-c05-marginal-ix", "C05", "silent", ND, "        covariance = utils.matrix_block(self.covariance, X, X)\n        return NormalDistribution(mean, covariance)\n", "        covariance = self.covariance[np.ix_(X, X)]\n        return NormalDistribution(mean, covariance)\n", what="np.ix_ block")
